@@ -389,6 +389,10 @@ def main():
         inputs = [list(i) for i in mc.tagged("INPUTS")[0][1]["__set__"]]
         ops = mc.tagged("OPS")[0][1]["__set__"]
         family[cname] = (decl, inputs, sorted(ops, key=lambda o: json.dumps(o, sort_keys=True)))
+    mo = tlc.run("MC_SchemaObj", "MC_SchemaObj_S1_orig.cfg", coverage=False)
+    if not {t[2] for t in mo.tagged("MVIOL")} >= {"setdefault", "ior"}:
+        raise MachineryError("the pinned-commit variant of SchemaObj (inherited dict.setdefault / |=) is not refuted: the property layer is vacuous")
+    ck.count("orig_variant_refuted_by_TLC")
     ck.count("model_level_violation_shapes", len(model_viol))
     for m in sorted(model_viol)[:12]:
         ck.note("model-level counterexample (M as coded violates P; replayed on the real code below): " + m)
